@@ -171,20 +171,13 @@ def pmap(modname, shards, nproc=None):
             total.merge(_run_shard((modname, s)))
         return total
     ctx = mp.get_context('fork')
-    with cf.ProcessPoolExecutor(max_workers=min(nproc, len(shards)), mp_context=ctx) as ex:
+    ex = cf.ProcessPoolExecutor(max_workers=min(nproc, len(shards)), mp_context=ctx)
+    stopped = False
+    try:
         futs = [ex.submit(_run_shard, (modname, s)) for s in shards]
         for f in cf.as_completed(futs):
             try:
                 total.merge(f.result())
-                if FAILFAST and total.nviol:
-                    # mutant runs only: stop at the first violating shard (evidence is marked partial)
-                    total.extra['failfast_stopped'] = 1
-                    for g in futs:
-                        g.cancel()
-                    for proc in list(getattr(ex, '_processes', {}).values()):
-                        proc.terminate()
-                    ex.shutdown(wait=False, cancel_futures=True)
-                    break
             except cf.CancelledError:
                 continue
             except Exception as e:  # BrokenProcessPool, worker exception
@@ -192,6 +185,21 @@ def pmap(modname, shards, nproc=None):
                     g.cancel()
                 raise HarnessError('worker failed: %s: %s\n%s' % (type(e).__name__, e,
                                                                     traceback.format_exc()))
+            if FAILFAST and total.nviol:
+                # mutant runs only: stop at the first violating shard (evidence is marked partial; the process
+                # leaves through os._exit so that the abandoned pool cannot block the exit)
+                total.extra['failfast_stopped'] = 1
+                stopped = True
+                for g in futs:
+                    g.cancel()
+                for proc in list(getattr(ex, '_processes', {}).values()):
+                    try:
+                        proc.kill()
+                    except Exception:
+                        pass
+                break
+    finally:
+        ex.shutdown(wait=not stopped, cancel_futures=True)
     return total
 
 
